@@ -83,7 +83,8 @@ def run_impl(sc):
                     sm.current_state_value = eng.state_value(sc, op[1])
                     r = None
                 elif op[0] == "add":
-                    sm.add_listener(*[mod.LATE[p] for p in op[1]])
+                    # (add_observer is the older name of add_listener)
+                    (sm.add_observer if sc.get("observer_alias") else sm.add_listener)(*[mod.LATE[p] for p in op[1]])
                     for p in op[1]:
                         for p_, kind, k, _scripts, dflt in sc["tbl"]:
                             if p_ == p and kind == 0 and k >= 500:
@@ -115,6 +116,7 @@ def run_impl(sc):
             eng.RUN = None
             return {"A": pre, "B": pre, "bad": []}
         sm.custom_attr = {"k": [1, 2]}
+        sm._private_note = ["kept", 3]           # the user's own underscore attribute
         for op in sc["prefix"]:
             out = do(sm, op)
             pre.append(observe(sm, model, out))
@@ -154,6 +156,8 @@ def run_impl(sc):
             bad.append("state_field / start_value not preserved")
         if getattr(clone, "custom_attr", None) != {"k": [1, 2]} or clone.custom_attr is sm.custom_attr:
             bad.append("custom attribute not copied")
+        if getattr(clone, "_private_note", None) != ["kept", 3] or clone._private_note is sm._private_note:
+            bad.append("private custom attribute not copied")
         if type(clone._engine) is not type(sm._engine):
             bad.append(f"engine kind differs: {type(sm._engine).__name__} -> {type(clone._engine).__name__}")
         # ---- diverging suffixes, alternately
@@ -230,6 +234,7 @@ def generate(rng, tier):
         sc = enggen.gen_scenario(rng, dict(K, listeners=(2, 4), multi_prov=0.6, conv=0.5) if many else K)
         sc["inst_attrs"] = rng.random() < 0.6
         add_late(sc, rng, 0.9 if many else 0.5)
+        sc["observer_alias"] = rng.random() < 0.3
         # guards provided both by machine/model and by a listener regroup on the clone (D19): keep each
         # guard name within one of the two sides
         scs.append(split_ops(rng, sc))
